@@ -57,7 +57,7 @@ fn check(acc: &mut Acc, reg: &Registry, s: &dyn Subject, body: &Body, members: V
 }
 
 pub fn run(ctx: &Ctx, reg: &Registry) -> i32 {
-    let n_rand: u64 = ctx.tier.pick(60, 1500);
+    let n_rand: u64 = ctx.tier.pick(400, 5000);
     let acc = ctx.par(|shard, n| {
         let mut acc = Acc::new();
         let mut unit = 0u64;
